@@ -201,7 +201,7 @@ func TestOnceValue(t *testing.T) {
 }
 
 func TestMisuseValue(t *testing.T) {
-	pbt.Rule("misuse_value", "single-goroutine op sequences on a fresh Mutex / RWMutex / ROMutex / Channel(cap 0..4) / nil channel, decided by a state model: legal ops must succeed (channel contents FIFO, length), blocking ops are skipped, the first misuse (unlock unheld, read_unlock without readers, unlock without writer, push/pop/close on a closed channel, close of a nil channel) must return the documented error class and never kill the process. Non-trivial = a misuse step executed; distinct by case")
+	pbt.Rule("misuse_value", "single-goroutine op sequences on a fresh Mutex / RWMutex / ROMutex / Channel(cap 0..4) / nil channel, decided by a state model: legal ops must succeed (channel contents FIFO, length), blocking ops are skipped, every misuse (unlock unheld, read_unlock without readers, unlock without writer, push/pop/close on a closed channel, close of a nil channel) must return the documented error class, never kill the process, and leave the primitive in its previous state: the history continues after it, and at the end every lock must be acquirable again once the locks the model holds are released. Non-trivial = a misuse step executed; distinct by case")
 	pbt.Run(t, pbt.Prop[MisuseCase]{Name: "misuse_value", Quick: scaled(8000), Thorough: scaled(150000), Gen: genMisuse,
 		Oracle: func(c MisuseCase, ctx *pbt.Ctx) error { return runChild("misuse", c, ctx) },
 		Known: []pbt.Known[MisuseCase]{{Key: kUnlockFatal, Match: func(c MisuseCase) bool {
